@@ -30,7 +30,7 @@ def run(ctx):
         ctx.fail("oracle", "kernel statement false on concrete operands", str(bad[:3]), replay={"false_statements": bad[:20]},
                  check="kernel_statement", features={"pred": bad[0]["pred"]})
     # 3. the state-machine model against the real application + the property oracle
-    res = fw.corr(ctx, "share", 300 if ctx.thorough() else 60)
+    res = fw.corr(ctx, "share", 1000 if ctx.thorough() else 60)
     fw.report_corr(ctx, "share", res, features)
     if res and res["mismatches"]:
         # a disagreement: say whether the oracle saw the property itself fail in the same run
